@@ -334,10 +334,12 @@ class Paraxial:
                 z0 = np.ones_like(y1) * z
 
             elif self.optic.field_type == 'angle':
-                y = -np.tan(np.radians(field_y))
                 z = self.optic.surface_group.positions[0]
+                # object point seen from the entrance pupil centre under the
+                # field angle
+                y = -np.tan(np.radians(field_y)) * (EPL - z)
 
-                y0 = y1 + y
+                y0 = np.ones_like(y1) * y
                 z0 = np.ones_like(y1) * z
 
         return y0, z0
